@@ -49,15 +49,19 @@ type CheckSpec struct {
 
 // Spec is a target definition plus the behaviour of its (simulated) command.
 type Spec struct {
-	Pkg       string      `json:"pkg"`
-	Name      string      `json:"name"`
-	Inputs    []string    `json:"inputs,omitempty"`
-	Excludes  []string    `json:"excludes,omitempty"`
-	Deps      []string    `json:"deps,omitempty"`
-	Outs      []OutSpec   `json:"outs,omitempty"`
-	Tags      []string    `json:"tags,omitempty"`
-	FP        []string    `json:"fp,omitempty"`
-	Platforms []string    `json:"platforms,omitempty"`
+	Pkg       string    `json:"pkg"`
+	Name      string    `json:"name"`
+	Inputs    []string  `json:"inputs,omitempty"`
+	Excludes  []string  `json:"excludes,omitempty"`
+	Deps      []string  `json:"deps,omitempty"`
+	Outs      []OutSpec `json:"outs,omitempty"`
+	Tags      []string  `json:"tags,omitempty"`
+	FP        []string  `json:"fp,omitempty"`
+	Platforms []string  `json:"platforms,omitempty"` // effective selectors (own list, or inherited)
+	// PlatMode says how the BUILD file spells them: "" = own list (or none), "inherit" = the field
+	// is absent and the package's default_platforms apply, "empty" = an explicit empty list that
+	// opts out of the package default
+	PlatMode  string      `json:"plat_mode,omitempty"`
 	TimeoutMS int         `json:"timeout_ms,omitempty"`
 	Checks    []CheckSpec `json:"checks,omitempty"`
 	Ver       int         `json:"ver"`
@@ -116,6 +120,8 @@ type Universe struct {
 	Specs   map[string]*Spec  `json:"specs"`   // label -> spec
 	Aliases map[string]string `json:"aliases"` // alias label -> actual label
 	Ext     map[string]string `json:"ext"`     // external state (tool versions, checked conditions)
+	// PkgPlat: package-level default_platforms (package path -> selectors)
+	PkgPlat map[string][]string `json:"pkg_platforms,omitempty"`
 }
 
 func (u *Universe) Clone() *Universe {
